@@ -50,7 +50,12 @@ def catalogue(tier, seed):
                 if content > 0:
                     for _ in range(rng.randrange(1, 30)):
                         adds.append([hexk(rng.choice(pool)), rng.choice([1, 1, 2, 5, 1000])])
-                cases.append({"family": fam, "cfg": cfg, "adds": adds})
+                case = {"family": fam, "cfg": cfg, "adds": adds}
+                if content > 0 and rng.random() < 0.4:
+                    # the file is written twice under the same name (an earlier, smaller state
+                    # first): what is on disk afterwards is the file whose prefixes are enumerated
+                    case["resave_after"] = rng.randrange(0, len(adds))
+                cases.append(case)
     return cases
 
 
@@ -62,15 +67,18 @@ def build_bytes(case):
     if fam in ("log16", "log8"):
         install_draws(sk, 4242, 0)
         boot.numba_seed(4243)
-    for hk, v in case["adds"]:
-        sk.add(unhex(hk), v)
     d = tempfile.mkdtemp(prefix="d-", dir=scratch_dir())
     path = os.path.join(d, "f.npz")
+    for j, (hk, v) in enumerate(case["adds"]):
+        if case.get("resave_after") == j:
+            sk.save(path)
+        sk.add(unhex(hk), v)
     sk.save(path)
     with open(path, "rb") as f:
         data = f.read()
-    os.unlink(path)
-    os.rmdir(d)
+    import shutil
+
+    shutil.rmtree(d, ignore_errors=True)
     return data, state_bytes(sk, fam), public_params(sk, fam)
 
 
